@@ -469,6 +469,29 @@ func runOne(out *tr.Writer, hid *int, hi int, h Hist, layout, seed int, maxDepth
 	p2 := ts.Projection(bitmapOf(w, n1, false), bitmapOf(w, e1, true)).Projection(bitmapOf(w, n2, false), bitmapOf(w, e2, true))
 	r.observeDigraph(p2)
 	r.observeTriplestore(p2, maxDepths, false, seed)
+	// deriving a projection leaves what it was derived from as it was: the parent projection observed after a child
+	// was derived (and used), a sibling derived after that, and the store underneath
+	buildWith := func(cont string, deln, dele []int) *runCtx {
+		r := &runCtx{w: w, out: out, hid: *hid, hi: hi, cont: cont}
+		*hid++
+		out.Emit(map[string]any{"e": "build", "hid": r.hid, "hi": hi, "panic": false, "container": cont, "layout": w.layout,
+			"nodes": nzi(w.nodes), "triples": triples, "deln": nzi(deln), "dele": nzi(dele)})
+		return r
+	}
+	parent := ts.Projection(bitmapOf(w, n1, false), bitmapOf(w, e1, true))
+	child := parent.Projection(bitmapOf(w, n2, false), bitmapOf(w, e2, true))
+	child.EachEdge(func(container.Edge) bool { return true })
+	child.EachNode(func(uint64) bool { return true })
+	r = buildWith("parent-after-child", n1, e1)
+	r.observeDigraph(parent)
+	r.observeTriplestore(parent, []int{1}, false, seed)
+	r = buildWith("sibling-after-child", n1, e1)
+	sibling := parent.Projection(cardinality.NewBitmap64(), cardinality.NewBitmap64())
+	r.observeDigraph(sibling)
+	r.observeTriplestore(sibling, []int{1}, false, seed)
+	r = buildWith("store-after-projections", nil, nil)
+	r.observeDigraph(ts)
+	r.observeTriplestore(ts, []int{1}, false, seed)
 }
 
 func Replay(args []string) {
